@@ -17,4 +17,5 @@ def run(chk):
         assumptions=["crash points are modelled as prefixes of the byte stream handed to Write::write before finalize; file-system effects (partial sector writes, reordering) are outside the model"],
         evaluations=lambda s: cu.total(s, "prefixes_decoded"),
         nontrivial=lambda s: sum(sum(v for k, v in st.get("prefix_ends", {}).items() if k != "open-failed") for st in s.values()),
-        debug_scale=25)
+        debug_scale=25,
+        extra=lambda c, by_prof: __import__("checks.codec_common", fromlist=["x"]).composed_prefix_tie(chk, c.cases))
